@@ -78,12 +78,16 @@ def case(args):
     from ..fixtures import c17fx as fx
 
     kind, keysets, kinds, prov = args[:4]
-    override = len(args) > 4 and args[4]
+    override = len(args) > 4 and args[4] is True
+    peek = len(args) > 4 and args[4] == "peek"
     L = len(keysets) - 1
     specs = [{"keys": ks, "kind": kd} for ks, kd in zip(keysets, kinds)]
     if override:
         for sp in specs:
             sp["override"] = True
+    if peek:
+        for sp in specs:
+            sp["peek"] = True
     unstored = [j for j in range(L) if prov[j] == "unstored"]
     for j in unstored:
         specs[j]["unstored"] = True
@@ -172,9 +176,9 @@ def case(args):
                         break
         if bad:
             sig = "%s|chain:%d|prov:%s|staging:%s|%s%s" % (kind, L, "+".join(sorted(set(prov))) or "-", "+".join(sorted(set(kinds))), bad[0],
-                                                          "|shared-key-override" if override else "")
+                                                          "|shared-key-override" if override else "|keys-listed-before-parent-declared" if peek else "")
             out["violations"].append((sig, bad[1] + "\nbackend=%s key sets=%s staging=%s parent provenance=%s shared key override=%s" % (kind, keysets, kinds, prov, bool(override)),
-                                      {"case": [kind, keysets, kinds, prov, bool(override)]}))
+                                      {"case": [kind, keysets, kinds, prov, "peek" if peek else bool(override)]}))
         out["outcomes"].append("%s|%s|%s|%s" % (kind, keysets, kinds, prov))
     finally:
         rm(top)
@@ -292,6 +296,16 @@ def run(ctx):
                     if L >= 1 and kinds[0] in ("mem", "disk") and len(set(kinds)) == 1:
                         for prov in itertools.product(provs, repeat=L):
                             tasks.append((kind, [list(k) for k in keysets], list(kinds), list(prov), True))
+    # every level lists the keys it has staged before it declares its parent
+    for L in (1, 2):
+        for keysets in itertools.product(KEYSETS[1:4], repeat=L + 1):
+            for kinds in (("mem",) * (L + 1), ("disk",) * (L + 1), tuple("mem" if i % 2 else "disk" for i in range(L + 1))):
+                for kind in ("fs", "fsc", "mem"):
+                    if L == 2 and not thorough and kind != "fsc":
+                        continue
+                    provs = {"fs": ("fresh", "disk"), "fsc": ("fresh", "disk", "cache"), "mem": ("fresh", "cache")}[kind]
+                    for prov in itertools.product(provs, repeat=L):
+                        tasks.append((kind, [list(k) for k in keysets], list(kinds), list(prov), "peek"))
     # keys holding EQUAL content (one stored object behind several entries of one level, and of several levels)
     dup = [["e", "f"], ["g", "h"], ["a"], ["e"], []]
     for L in (1, 2):
